@@ -439,7 +439,8 @@ class World:
             for item in self.pushed:
                 acts.append(("handle", item))
         dl = b.deliverable()
-        dl.sort(key=lambda qc: (b.queues[qc[0]].messages[0].uid, qc[1].tag))
+        # oldest message first; among the consumers of one queue the least recently served first (round-robin, as RabbitMQ does)
+        dl.sort(key=lambda qc: (b.queues[qc[0]].messages[0].uid, qc[1].last_served, qc[1].tag))
         for (q, c) in dl:
             acts.append(("deliver", q, c))
         for t in b.due_timers():
